@@ -104,6 +104,8 @@ pub struct GenCfg {
     pub rm_boost: u32,
     /// also remove through DELETE queries
     pub query_delete: bool,
+    /// DataKeySelector / AnnotationDataSelector as members of complex selectors
+    pub keydata_in_complex: bool,
 }
 
 impl Default for GenCfg {
@@ -127,6 +129,7 @@ impl Default for GenCfg {
             metadata_selectors: true,
             rm_boost: 1,
             query_delete: false,
+            keydata_in_complex: false,
         }
     }
 }
@@ -235,7 +238,7 @@ impl Gen {
 
     pub fn gen_simple_sel(&self, rng: &mut Rng, m: &Model, in_complex: bool) -> Option<SelReq> {
         for _ in 0..8 {
-            let kind = rng.pick_weighted(&[40, 12, 12, 8, 6, if in_complex { 0 } else { 6 }, if in_complex { 0 } else { 6 }]);
+            let kind = rng.pick_weighted(&[40, 12, 12, 8, 6, if in_complex { if self.cfg.keydata_in_complex { 3 } else { 0 } } else { 6 }, if in_complex { if self.cfg.keydata_in_complex { 3 } else { 0 } } else { 6 }]);
             let s = match kind {
                 0 => self.gen_text_sel(rng, m),
                 1 => self.gen_ann_sel(rng, m, Some(false)),
